@@ -113,6 +113,8 @@ def check_c07(ctx):
     collect(ctx, rep, pairs, ['c07total', 'c07idem', 'c07bytes'], lambda o, v: 'n1=%s n2=%s err=%s' % (o.get('n1', '')[:120], o.get('n2', '')[:120], o['err'][:200]),
             lambda o, v: o['case']['fam'] in ('wild', 'payload', 'odd'))
     rep.counts['byte_level_mutants'] = sum(o.get('nmut', 0) for o, v in pairs)
+    # properties carrying x-order: the normal form is one fixed text whatever order the members arrive in
+    ordering_part(ctx, rep, 'c07order')
     return rep.finish(
         'model_checking',
         'CodecCases.tla family "wild": every keyword of every kind / flavour with each of 13 value classes, right or wrong (null, '
@@ -182,10 +184,8 @@ CHECKS = {'C01': check_c01, 'C07': check_c07, 'C14': check_c14, 'C15': check_c15
 REPLAY = {'codec': replay_codec}
 
 
-def check_c06(ctx):
-    vlib.build_worker(ctx)
-    maxchain, pk = tier_params(ctx)
-    rep = vlib.Report(ctx)
+def ordering_part(ctx, rep, pred):
+    """The comparator of `properties`: strict total order, model-checked; every item set replayed over all source permutations."""
     # (a) the comparator: strict total order, model-checked; every item set replayed over all source permutations
     maxitems = 4 if ctx.tier == 'thorough' else 3
     orders = ctx.path('orders.ndjson')
@@ -197,15 +197,22 @@ def check_c06(ctx):
             rep.evaluations += 1
             rep.nontrivial.add(json.dumps(o['items'], sort_keys=True))
             ok = o['det'] and o['intok'] and not o['err']
-            rep.count('c06order:' + ('pass' if ok else 'fail'))
+            rep.count(pred + ':' + ('pass' if ok else 'fail'))
             if not o['conforms']:
                 rep.count('ordering_drift')
             if not ok:
-                rep.fail('c06order', {'family': 'order', 'items': o['items'], 'want': o['want']}, [],
+                rep.fail(pred + '', {'family': 'order', 'items': o['items'], 'want': o['want']}, [],
                          'properties %s: %d distinct encodings over %d runs, order %s (specified %s) %s' % (
                              [(i['name'], i['xo']) for i in o['items']], o['outs'], o['runs'], o['got'], o['want'], o['err']))
             if len(rep.samples) < 2 and len(o['items']) == 3 and any(i['xo'] == 'f15' for i in o['items']):
                 rep.samples.append({'items': o['items'], 'encoded': o['sample'], 'runs': o['runs']})
+
+
+def check_c06(ctx):
+    vlib.build_worker(ctx)
+    maxchain, pk = tier_params(ctx)
+    rep = vlib.Report(ctx)
+    ordering_part(ctx, rep, 'c06order')
     # (b) every encoding performed for the vocabulary families: token scan, parse-back, determinism
     pairs = run_codec(ctx, ['single', 'pair', 'ext', 'chain', 'wild', 'payload', 'odd'], maxchain, pk)
     collect(ctx, rep, pairs, ['c06'], lambda o, v: 'dups=%s faithful=%s det=%s' % (o.get('dups'), o.get('faithful'), o.get('det')),
@@ -235,7 +242,7 @@ def check_c06(ctx):
         'performed for the vocabulary families (C01 / C07 / C14 documents, plain and special member names) is token-scanned for '
         'duplicate member names, parsed back, and re-encoded / re-decoded from permuted sources for byte equality. A table of '
         'builder-API programs (AddExtension, SetProperty, AddParam, RespondsWith, WithDefault ...) is run and the resulting values '
-        'encoded under the same checks.' % maxitems,
+        'encoded under the same checks.' % (4 if ctx.tier == 'thorough' else 3),
         ASSUME, exhaustive=True)
 
 
@@ -251,6 +258,9 @@ def check_c19(ctx):
     maxchain = 8 if ctx.tier == 'thorough' else 6
     cases = gen_cases(ctx, ['valid'], maxchain, [])
     obsfiles = vlib.run_worker(ctx, 'codec', cases, ['-vocab', vocab, '-names', 'plain', '-expand'], prefix='valid')
+    # the same documents with member names from the special pool (quotes, control characters, ~ and / in map keys,
+    # unusual three-digit status codes)
+    obsfiles += vlib.run_worker(ctx, 'codec', cases, ['-vocab', vocab, '-names', 'special', '-expand'], prefix='validsp')
 
     def validate(of):
         out = of + '.val'
